@@ -93,7 +93,7 @@ def bit_reverse_perm(m: int) -> np.ndarray:
     return np.array([int(format(i, f"0{m}b")[::-1], 2) if m else 0 for i in range(N)], dtype=np.int64)
 
 
-def sc_decode(llr: np.ndarray, info_mask: np.ndarray, frozen_value: int, f: str = "sum_product"):
+def sc_decode(llr: np.ndarray, info_mask: np.ndarray, frozen_value: int, f: str = "sum_product", clip: float = None):
     """Textbook successive cancellation for x = u.F^{(x)m} (natural order, no bit reversal), float64.
     returns (u_hat (N,), decision LLRs (N,), max intermediate |LLR|)."""
     N = len(llr)
@@ -103,7 +103,9 @@ def sc_decode(llr: np.ndarray, info_mask: np.ndarray, frozen_value: int, f: str 
 
     def fop(a, b):
         if f == "min_sum":
-            return np.sign(a) * np.sign(b) * np.minimum(np.abs(a), np.abs(b))
+            r = np.sign(a) * np.sign(b) * np.minimum(np.abs(a), np.abs(b))
+            # optional saturation of the CHECK node only (the library documents a 'clip' for it); the accumulate node is never clipped
+            return r if clip is None else np.clip(r, -clip, clip)
         t = np.tanh(a / 2) * np.tanh(b / 2)
         t = np.clip(t, -1 + 1e-16, 1 - 1e-16)
         return 2 * np.arctanh(t)
